@@ -92,6 +92,11 @@ def dags(thorough=False):
     sh2 = SCell(bits_of('shared2', 80))
     out['diamond-payload100'] = [SCell(bits_of('dp', 16), [SCell(bits_of('dx', 300), [sh2]), SCell(bits_of('dy', 296), [sh2])])]
     out['dup-leaves'] = [SCell(bits_of('d2', 16), [SCell(bits_of('same', 24)), SCell(bits_of('same', 24))])]
+    # cells whose stored data bytes coincide although their bit strings differ (the completion tag of one is data of the other): `1` is
+    # stored as C0 with d2 = 1, `11000000` as C0 with d2 = 2; likewise 7 + tag bits against a whole byte, and the same under references
+    twin_leaf = [SCell('1'), SCell('11000000'), SCell('1010101'), SCell('10101011'), SCell(''), SCell('1' + '0' * 7 + '1'), SCell('1' + '0' * 7 + '1' + '1' + '0' * 6)]
+    out['padded-twins'] = [SCell('0110', [SCell('1', [twin_leaf[0], twin_leaf[1]]), SCell('11000000', [twin_leaf[1], twin_leaf[0]]),
+                                          SCell('', [twin_leaf[2], twin_leaf[3], twin_leaf[5], twin_leaf[6]]), twin_leaf[4]])]
     x = SCell(bits_of('deep', 30))
     out['shared-later'] = [SCell(bits_of('r2', 5), [x, SCell(bits_of('y2', 5), [x])])]
     # the largest possible cell: 1023 data bits and four references (128 data bytes + 2 descriptor bytes + 4 indices)
